@@ -193,8 +193,12 @@ def main(argv=None):
     module = f"Verif.Props.{prop_id}"
     b = core.build(module, pre=translate.translate, audit_of=(prop_id, theorems))
     reports = b.pre or {}
-    for name in getattr(prop, "GEN", []):
+    for entry in getattr(prop, "GEN", []):
+        name, _, part = entry.partition("/")
         for u in reports.get(name, {}).get("untranslatable", []):
+            tag = u.split(":", 1)[0] if ": " in u and u.split(":", 1)[0].isalpha() and u.split(":", 1)[0] in ("grace",) else ""
+            if (part or "") != tag:
+                continue  # "Timing" = poll/timeouts only; "Timing/grace" = the grace periods
             broken.append({"kind": "translator", "name": f"Gen/{name}.lean", "detail": u})
 
     # 2. audit
